@@ -3,7 +3,7 @@
    is SpecParse.load_spec: a recursive-descent parser over the RFC 8949 heads (SpecHead.head_spec):
    definite count, indefinite until break, key/value pairing, one item per tag, chunked strings of
    same-type definite chunks, simple values 20..23 only, nesting within L, no refused allocation. *)
-From CB Require Import Word PStream SpecHead PItem PBuild SpecParse PRun PBuild_proofs PFinal PFinal2 HHeap HItems HOps HRef_proofs HCont_proofs HRead_proofs HLoad_proofs.
+From CB Require Import Word PStream SpecHead PItem PBuild SpecParse PRun PBuild_proofs PFinal PFinal2 HHeap HItems HOps HRef_proofs HCont_proofs HRead_proofs HLoad_proofs PIdeal_proofs.
 Local Open Scope N_scope.
 
 (* cbor_load succeeds iff the specification accepts, with the same tree — types, widths, values,
@@ -82,3 +82,11 @@ Theorem C02_load_h_refines :
 Proof. exact load_h_refines. Qed.
 Print Assumptions C02_load_h_refines.
 
+
+(* acceptance coincides with the independent first-violation parser (PIdeal_proofs.parse_ideal):
+   the library's lazy handling of chunked strings never makes it accept something ill-formed, nor
+   reject something well-formed *)
+Theorem C02_accepts_ideal : forall L cap buf t n, bytes_ok buf -> len buf < SIZE_MAX ->
+  (load L cap buf = LOk t n <-> load_ideal L cap buf = LOk t n).
+Proof. exact PIdeal_proofs.C02_accepts_ideal. Qed.
+Print Assumptions C02_accepts_ideal.
